@@ -33,7 +33,9 @@ pub struct CliResult {
 
 /// Run the svgdx binary. `cpu_budget` seconds of CPU (not wall) before the run is called a hang.
 pub fn run_cli(args: &[String], stdin: Option<&[u8]>, cwd: &Path, cpu_budget: f64) -> CliResult {
-    let mut cmd = Command::new(CLI_BIN);
+    // 4 GiB address-space limit (see engine::Worker::spawn)
+    let mut cmd = Command::new("/bin/sh");
+    cmd.arg("-c").arg("ulimit -v 4194304; exec \"$0\" \"$@\"").arg(CLI_BIN);
     cmd.args(args).current_dir(cwd).stdout(Stdio::piped()).stderr(Stdio::piped());
     cmd.stdin(if stdin.is_some() { Stdio::piped() } else { Stdio::null() });
     let mut child = cmd.spawn().expect("spawn svgdx binary");
@@ -99,7 +101,10 @@ impl Server {
                 let l = std::net::TcpListener::bind("127.0.0.1:0").ok()?;
                 l.local_addr().ok()?.port()
             };
-            let child = Command::new(SERVER_BIN)
+            let child = Command::new("/bin/sh")
+                .arg("-c")
+                .arg("ulimit -v 16777216; exec \"$0\" \"$@\"")
+                .arg(SERVER_BIN)
                 .args(["--address", "127.0.0.1", "--port", &port.to_string()])
                 .stdout(Stdio::null())
                 .stderr(Stdio::null())
@@ -219,7 +224,7 @@ fn c01_inputs(tier: Tier, seed: u64) -> Vec<(String, Vec<u8>)> {
     let mut v: Vec<(String, Vec<u8>)> = Vec::new();
     // all shape kinds at two sizes (deterministic in seed)
     let sizes: &[usize] = if tier == Tier::Quick { &[3, 2000] } else { &[1, 40, 3000, 150_000] };
-    for kind in 0u8..30 {
+    for kind in 0u8..33 {
         for (j, n) in sizes.iter().enumerate() {
             let sel = (crate::engine::splitmix(seed ^ ((kind as u64) << 8) ^ j as u64) & 0xffff) as u16;
             let (name, doc) = shape_doc(kind, *n, sel);
